@@ -99,7 +99,7 @@ def replay_case(rec):
 
 
 WEIGHTS = {'add': 10, 'add_fwd': 2, 'remove': 4, 'remove_nonchild': 1, 'replace': 2, 'replace_nonchild': 1,
-           'dot_inst': 2, 'dot_val': 1, 'dot_none': 3, 'to_string': 3, 'replace_self': 1}
+           'dot_inst': 2, 'dot_val': 1, 'dot_none': 3, 'to_string': 3, 'replace_self': 1, 'add_again': 1}
 
 
 def shards(ctx):
